@@ -22,8 +22,8 @@ from pathlib import Path
 VERIF = Path(__file__).resolve().parent.parent
 REPO = Path(os.environ.get("VERIF_REPO", "/repo"))
 SPEC = VERIF / "spec"
-EVIDENCE = VERIF / "evidence"
-REPLAYS = VERIF / "replays"
+EVIDENCE = Path(os.environ.get("VERIF_EVIDENCE_DIR", VERIF / "evidence"))
+REPLAYS = Path(os.environ.get("VERIF_REPLAYS_DIR", VERIF / "replays"))
 KNOWN = VERIF / "known_findings.json"
 PY = os.environ.get("VERIF_PY", "/venv/bin/python")
 NCPU = int(os.environ.get("VERIF_NCPU", os.cpu_count() or 4))
